@@ -151,6 +151,8 @@ def body_memory(case, rec):
     d = fa.scratch()
     path = d / f"big-{B}-{width}-{len(eol)}.fa"
     with path.open("wb") as fh:
+        if case.get("tiny_first"):
+            fh.write(b">tiny" + eol.encode() + b"A" + eol.encode() + b"C" + eol.encode())  # one residue per line
         fh.write(b">chr1 big" + eol.encode())
         for _ in range(full // 1000):
             fh.write(line * 1000)
@@ -208,7 +210,7 @@ def memory_cases(tier, shard, nshards):
         if k % nshards != shard:
             continue
         yield {"buffer": B, "width": width, "eol": eol, "length": max(200 * B, 2_000_000) + 7 * k,
-               "pattern": patterns[k % 3]}
+               "pattern": patterns[k % 3], "tiny_first": k % 2 == 0}
         if tier == "thorough":
             yield {"buffer": B, "width": width, "eol": eol, "length": 400 * B + 13 * k, "pattern": patterns[(k + 1) % 3]}
 
